@@ -3,7 +3,7 @@
 From Coq Require Import ZArith List.
 Import ListNotations.
 From Mds Require Import Stree.StreeModel Stree.HeightModel Stree.HeightLimit Stree.HeightBasics
-  Stree.HeightRewrite.
+  Stree.HeightRewrite Stree.HeightProofs.
 Local Open Scope Z_scope.
 
 (* (c) The exact depth limit (largest k with 2000^k <= n*(1000+b)^k, which is what limitFunc
@@ -45,3 +45,33 @@ Example C02_rewrite_balanced_ex :
   rewrite (Node Leaf 1 (Node Leaf 2 (Node Leaf 3 (Node Leaf 4 (Node Leaf 5 Leaf))))) 5
   = Ok (Node (Node (Node Leaf 1 Leaf) 2 (Node Leaf 3 Leaf)) 4 (Node Leaf 5 Leaf)).
 Proof. reflexivity. Qed.
+
+(* (b) The height bound over whole histories.  [run_with_peak] runs StreeModel.step (New, Clone,
+   Add, Replace, Remove, Clear and the observers, over any number of trees) and keeps, per tree,
+   P = the largest Len the tree has had since it was created, cleared or last empty (a clone
+   inherits the peak of its original).  For EVERY comparator (no law is needed), every depth-limit
+   function with H1 and H2, every history and every tree in it with balance factor b < 1000:
+   Len <= P and  Bound b P root, i.e.  height <= 1  or  2000^(h-1) <= P*(1000+b)^(h-1), which is
+   "no key lies deeper than log_{2000/(1000+b)} P + 1" without real numbers.  Checked after every
+   single operation because the statement holds for every prefix (every op list).
+   (The proof establishes the bound one level tighter: 2000^h <= P*(1000+b)^h.) *)
+Theorem C02_history : forall (T : Type) (cmp : T -> T -> Z) (limit : Z -> Z -> Z),
+  limit_H1 limit -> limit_H2 limit ->
+  forall ops : list (op T),
+  Forall2 (fun t P => 0 <= beta t < 1000 -> Len t <= P /\ Bound (beta t) P (root t))
+          (fst (run_with_peak cmp limit ops)) (snd (run_with_peak cmp limit ops)).
+Proof. exact @history_bound. Qed.
+Print Assumptions C02_history.
+
+(* the same for the limit the model of the tree uses, with nothing left to assume *)
+Theorem C02_history_exact : forall (T : Type) (cmp : T -> T -> Z) (ops : list (op T)),
+  Forall2 (fun t P => 0 <= beta t < 1000 -> Len t <= P /\ Bound (beta t) P (root t))
+          (fst (run_with_peak cmp limit_exact ops)) (snd (run_with_peak cmp limit_exact ops)).
+Proof. intros T cmp. exact (history_bound cmp limit_exact limit_exact_H1 limit_exact_H2). Qed.
+Print Assumptions C02_history_exact.
+
+Example C02_history_ex :
+  let r := run_with_peak zcmp limit_exact
+             ([ONew 0 [] []] ++ map (OAdd 0%nat) [1;2;3;4;5;6;7;8;9;10;11;12] ++ map (ORemove 0%nat) [1;2;3]) in
+  map (fun t => (Len t, height (root t))) (fst r) = [(9, 3)] /\ snd r = [12].
+Proof. vm_compute. auto. Qed.
